@@ -316,8 +316,10 @@ Proof.
 Qed.
 
 (* with both repairs of the evaluation of top-level variables the guard holds for every tree *)
-Lemma glob_ok_fixed : forall i h c, glob_ok fixed_variant h c i = true.
+Lemma glob_ok_repaired : forall v, v_global_null v = true -> v_global_direct v = true ->
+  forall i h cr, glob_ok v h cr i = true.
 Proof.
+  intros v Hn Hd.
   induction i using inst_ind'; intros h cr; cbn [glob_ok]; auto.
   - apply forallb_forall. intros x Hx. rewrite Forall_forall in H. apply H; exact Hx.
   - rewrite Forall_forall in H, H0. apply andb_true_intro; split; apply forallb_forall; intros x Hx; auto.
@@ -325,8 +327,11 @@ Proof.
   - rewrite Forall_forall in H, H0. apply andb_true_intro; split; apply forallb_forall; intros x Hx; auto.
   - rewrite Forall_forall in H, H0. apply andb_true_intro; split; apply forallb_forall; intros x Hx; auto.
   - apply forallb_forall. intros x Hx. rewrite Forall_forall in H. apply H; exact Hx.
-  - cbn. rewrite orb_true_r. cbn. apply forallb_forall. intros x Hx. rewrite Forall_forall in H. apply H; exact Hx.
+  - rewrite Hn, Hd, orb_true_r. cbn. apply forallb_forall. intros x Hx. rewrite Forall_forall in H. apply H; exact Hx.
 Qed.
+
+Lemma glob_ok_fixed : forall i h cr, glob_ok fixed_variant h cr i = true.
+Proof. exact (glob_ok_repaired fixed_variant eq_refl eq_refl). Qed.
 
 (* ------------------------------------------------------------------------------------------ *)
 (* statements used by Properties_C10r.v *)
@@ -339,6 +344,16 @@ Proof.
   intros v Hv i h s Hw Hc Hg s' o ok E.
   destruct (agrees_lemma v Hv i h s Hw Hc Hg) as (K1 & K2 & K3). rewrite E in *. cbn in *.
   destruct (spec h (top s) i) as [a b]. cbn in *. subst. auto.
+Qed.
+
+Lemma variant_lemma : forall v, v_call_keeps v = true ->
+  forall i h s, wf h i = true -> compat h (itop s) = true ->
+  v_global_null v && v_global_direct v = true \/ glob_ok v h (top s) i = true ->
+  forall s' o ok, walk v i s = (s', o, ok) ->
+  (o, ok) = spec h (top s) i /\ (ok = true -> s' = s).
+Proof.
+  intros v Hv i h s Hw Hc [Hr|Hg]; [|exact (sim_lemma v Hv i h s Hw Hc Hg)].
+  apply andb_prop in Hr. apply (sim_lemma v Hv i h s Hw Hc). apply glob_ok_repaired; tauto.
 Qed.
 
 Lemma fixed_lemma :
